@@ -182,6 +182,19 @@ def _recompute(n):
     return n._compute_type(False)
 
 
+# every distinct (function, type arguments, argument types, return type) of the Apply nodes met in the emitted IR:
+# judged by TLC against the registered signatures (FrontEndTypes!ApplyWhy); `CONTEXT[0]` names the program being built
+APPLY_LOG = {}
+CONTEXT = [""]
+
+
+def _log_apply(n):
+    key = (n.function, tuple(str(a.typ) for a in n.args), str(n.return_type), tuple(str(t) for t in n.type_args))
+    if key not in APPLY_LOG:
+        APPLY_LOG[key] = {"name": n.function, "targs": [tterm(t) for t in n.type_args], "args": [tterm(a.typ) for a in n.args],
+                          "ret": tterm(n.return_type), "where": CONTEXT[0]}
+
+
 def ir_consistency(root, verified=None):
     """-> (number of nodes checked, number without a usable rule, list of disagreements).
     `verified`: optional dict id -> node of nodes already found consistent (IR nodes are immutable once built)."""
@@ -189,6 +202,8 @@ def ir_consistency(root, verified=None):
     for n in _dag(root):
         if verified is not None and id(n) in verified:
             continue
+        if type(n).__name__ in ("Apply", "ApplySpecial"):
+            _log_apply(n)
         carried = n._type
         if carried is None:
             norule += 1
@@ -378,8 +393,8 @@ class Builder:
             return X(e["a"]).extend(X(e["x"]))
         if op == "setadd":
             return X(e["a"]).add(X(e["x"]))
-        if op == "union":
-            return X(e["a"]).union(X(e["x"]))
+        if op in ("union", "remove", "difference", "intersection", "is_subset"):
+            return getattr(X(e["a"]), op)(X(e["x"]))
         if op == "range":
             return hl.range(X(e["a"]))
         if op == "agg":
@@ -511,6 +526,7 @@ class ExprHarness:
         out = dict(case)
         out.update(st="rej", rep=NONE_T, ir=NONE_T, loc=0, deep="", exc="", root="")
         e = case["e"]
+        CONTEXT[0] = show(e)
         try:
             x = self.builder.expr(e)
             if case["kind"] == "agg":
